@@ -966,12 +966,11 @@ class DestHandler:
             self._params.remote_cfg.max_packet_len, self._params.pdu_conf
         )
         next_segment_reqs = []
+        all_segment_reqs = list(self._params.acked_params.lost_seg_tracker.lost_segments.items())
         if self._params.acked_params.metadata_missing:
-            next_segment_reqs.append((0, 0))
-        for (
-            start,
-            end,
-        ) in self._params.acked_params.lost_seg_tracker.lost_segments.items():
+            # The metadata request counts towards the maximum number of requests per NAK PDU.
+            all_segment_reqs.insert(0, (0, 0))
+        for start, end in all_segment_reqs:
             next_segment_reqs.append((start, end))
             if len(next_segment_reqs) == max_segments_in_one_pdu:
                 self._add_packet_to_be_sent(
